@@ -22,6 +22,15 @@ int2str = Function('int2str', IntSort(), Str)
 ser = Function('ser', E, Str)            # serialisation of a published expression (str(e))
 
 
+def strip_z(s, which='strip'):
+    """str.strip()/lstrip()/rstrip() without arguments: computed on constants, uninterpreted otherwise"""
+    from .smt import pyval
+    v = pyval(simplify(s))
+    if isinstance(v, list) and all(isinstance(c, int) for c in v):
+        return pystr(getattr(''.join(chr(c) for c in v), which)())
+    return {'strip': str_strip, 'lstrip': str_lstrip, 'rstrip': str_rstrip}[which](s)
+
+
 def guard(g, ok, exc):
     if g is not None:
         ok = simplify(ok) if not isinstance(ok, bool) else BoolVal(ok)
@@ -223,11 +232,18 @@ def length(v, g=None):
         return VI(len(v.a['items']))
     if v.ty == 'const':
         return VI(len(v.a['py']))
+    if v.ty == 'hlist':
+        return VI(len(v.a['prefix']) + Length(v.a['tail'].z))
     raise Unsupported('len of ' + v.ty)
 
 
 def index(v, k, g=None):
     """v[k] for an int index k"""
+    if v.ty == 'hlist':
+        kz = simplify(k.z)
+        if z3.is_int_value(kz) and 0 <= kz.as_long() < len(v.a['prefix']):
+            return v.a['prefix'][kz.as_long()]
+        raise Unsupported('index into the symbolic part of a hybrid list')
     if v.ty in ('list', 'tuple'):
         kz = simplify(k.z)
         if z3.is_int_value(kz):
@@ -280,6 +296,11 @@ def slice_of(v, sl, g=None):
     if sl.a.get('step') is not None and sl.a['step'].ty != 'none':
         raise Unsupported('slice step')
     lo, hi = bound(sl.a['lo']), bound(sl.a['hi'])
+    if v.ty == 'hlist':
+        lz = simplify(lo) if lo is not None and not isinstance(lo, tuple) else None
+        if hi is None and lz is not None and z3.is_int_value(lz) and lz.as_long() == len(v.a['prefix']):
+            return v.a['tail']
+        raise Unsupported('slice of a hybrid list other than [len(prefix):]')
     if isinstance(lo, tuple) or isinstance(hi, tuple):
         src = v.z if v.ty == 'seq' else (v.z if v.ty == 'str' else None)
         if src is None:
@@ -358,6 +379,12 @@ def to_str(v):
         return int2str(v.z)
     if v.ty == 'E':
         return ser(v.z)
+    if v.ty == 'none':
+        return pystr('None')
+    if v.ty == 'opt':
+        return If(v.a['isnone'], pystr('None'), to_str(v.a['some']))
+    if v.ty == 'bool':
+        return If(v.z, pystr('True'), pystr('False'))
     raise Unsupported('str() of ' + v.ty)
 
 
